@@ -101,6 +101,29 @@ def neg(x):
     return ("not", x)
 
 
+def closed_value(v):
+    """a value made of variants, sequences, tuples, literals and symbols only (nothing unknown inside)"""
+    if not isinstance(v, tuple) or not v:
+        return False
+    if v[0] in ("lit", "sym", "bool", "unit"):
+        return True
+    if v[0] == "v":
+        return len(v) == 3 and all(closed_value(x) for x in v[2])
+    if v[0] in ("array", "iterv", "tuple"):
+        return len(v) > 1 and isinstance(v[1], list) and all(closed_value(x) for x in v[1])
+    return False
+
+
+def norm_value(v):
+    if v[0] == "bool":
+        return ("lit", v[1])
+    if v[0] == "v":
+        return ("v", v[1], tuple(norm_value(x) for x in v[2]))
+    if v[0] in ("array", "iterv", "tuple"):
+        return ("seq" if v[0] != "tuple" else "tuple", tuple(norm_value(x) for x in v[1]))
+    return v
+
+
 READ_ONLY_METHODS = {"len", "is_empty", "iter", "first", "last", "get", "contains", "as_slice", "to_vec", "clone", "as_ref", "deref", "binary_search", "starts_with", "ends_with",
                      "concat", "join", "eq", "ne", "cmp", "partial_cmp", "fmt", "to_string", "to_owned", "windows", "chunks", "split_first", "split_last", "position"}
 
@@ -380,6 +403,10 @@ class Evaluator:
             if op in ("/", "%") and y != 0:
                 q = abs(x) // abs(y) * (1 if (x >= 0) == (y >= 0) else -1)      # Rust: truncation towards zero
                 return ("lit", q if op == "/" else x - q * y)
+        if getattr(self, "vecs", False) and op in ("==", "!=") and closed_value(a) and closed_value(b) and (a[0] == "v" or b[0] == "v" or a[0] == "array" or b[0] == "array"):
+            # structural (derived) equality of two fully concrete values; distinct symbols stand for distinct values
+            same = norm_value(a) == norm_value(b)
+            return mk_bool(same if op == "==" else not same)
         if self.ints and a[0] == "tuple" and b[0] == "tuple" and len(a[1]) == len(b[1]) and op in ("==", "!=", "<", "<=", ">", ">=") and \
                 all(x[0] == "lit" and isinstance(x[1], int) and not isinstance(x[1], bool) for x in a[1] + b[1]):
             # tuples of integers compare lexicographically
@@ -741,6 +768,9 @@ class Evaluator:
             if self.ints and v[0] == "tuple" and str(e["name"]).isdigit() and int(e["name"]) < len(v[1]):
                 yield s, v[1][int(e["name"])]
                 continue
+            if v[0] == "rec" and e["name"] in v[1]:
+                yield s, v[1][e["name"]]          # a record given by its fields (`ev.vecs` tables)
+                continue
             if self.ints and v[0] == "range" and e["name"] in ("start", "end") and not v[3]:
                 yield s, (v[1] if e["name"] == "start" else v[2])          # `range.end` of a concrete `a..b`
                 continue
@@ -881,6 +911,32 @@ class Evaluator:
                 s2 = s.fork()
                 s2.env[self.recv_local] = ("array", list(seq0) + list(more)) if more is not None else ("unknown", "extended by an unknown sequence")
                 yield s2, ("unit",)
+                return
+            if method in ("sort_by", "sort_unstable_by") and seq0 is not None and len(args) == 2 and args[1][0] == "closure" and len(args[1]) == 4 and getattr(self, "recv_local", None):
+                import functools
+                bad = []
+                rl = self.recv_local          # (the comparisons below evaluate other method calls, which overwrite the attribute)
+
+                def cmpf(x, y):
+                    rs = list(self.apply_closure(args[1], [x, y], s))
+                    if len(rs) == 1 and rs[0][1][0] == "v" and rs[0][1][1] in ("Less", "Equal", "Greater"):
+                        return {"Less": -1, "Equal": 0, "Greater": 1}[rs[0][1][1]]
+                    bad.append(1)
+                    return 0
+                out = sorted(seq0, key=functools.cmp_to_key(cmpf))          # stable, like slice::sort_by
+                s2 = s.fork()
+                s2.env[rl] = ("array", out) if not bad else ("unknown", "sorted with a comparison that does not fold")
+                yield s2, ("unit",)
+                return
+            if method == "position" and seq0 is not None and len(args) == 2 and args[1][0] == "closure" and len(args[1]) == 4:
+                for i, x in enumerate(seq0):
+                    rs = list(self.apply_closure(args[1], [x], s))
+                    if len(rs) != 1 or rs[0][1][0] != "bool":
+                        return
+                    if rs[0][1][1]:
+                        yield s, some(("lit", i))
+                        return
+                yield s, none
                 return
             if method in ("reverse", "clear") and seq0 is not None and len(args) == 1 and getattr(self, "recv_local", None) and re.search(r"\bvec::Vec\b|slice", c):
                 s2 = s.fork()
